@@ -243,6 +243,43 @@ BLOCKS_Q = list(range(1, 17)) + [47, 48, 49, 95, 96, 97, 191, 192, 193,
 BLOCKS_T = list(range(1, 200)) + [255, 256, 257, 10 ** 6]
 
 
+SCALE_HEADER_LENS = [1023, 1024, 1025, 1056, 4095, 4096, 4097, 4128, 8191,
+                     8192, 8193, 65535, 65536, 65537]
+SCALE_BLOCKS = [None, 1, 7, 64, 96, 103, 199, 1024, 4096, 65536]
+SCALE_BLANKS = [1, 95, 96, 97, 1000, 1100, 5000]
+
+
+def scale_cases():
+    """(label, data) -- headers of boundary lengths at the first and at a
+    later position, long runs of blank lines, many sections."""
+    name, base = base_files()[0]
+    recs, err = spec.parse(base)
+    out = []
+    first_nl = base.index(b'\n')
+    second = base.index(b'#.meta:')
+    second_nl = base.index(b'\n', second)
+    for n in SCALE_HEADER_LENS:
+        pad1 = n - first_nl
+        if pad1 >= 5:
+            out.append(('first-header-%d' % n, pad_file(base, pad1)))
+        # lengthen the 3rd header (a content header) to exactly n bytes
+        cur = second_nl - second
+        if n - cur >= 5:
+            d2 = base[:second_nl] + b', z=' + b'a' * (n - cur - 4) + \
+                base[second_nl:]
+            out.append(('later-header-%d' % n, d2))
+    for k in SCALE_BLANKS:
+        out.append(('blank-run-%d' % k, base[:first_nl + 1] + b'\n' * k +
+                    base[first_nl + 1:]))
+        out.append(('blank-ws-run-%d' % k, base[:second] + b' \n' * k +
+                    base[second:]))
+        out.append(('blank-tail-%d' % k, base + b'\n' * k))
+    many = base[:first_nl + 1] + (b'#.change:\n#..file:\n#...meta: length=11'
+                                  b'\n{"a": "x"}\n') * 1500
+    out.append(('many-sections', many))
+    return out
+
+
 def plan(tier):
     files = base_files()
     blocks = BLOCKS_Q if tier == 'quick' else BLOCKS_T
@@ -250,6 +287,9 @@ def plan(tier):
     for fi in range(len(files)):
         for i in range(0, len(blocks), 4):
             units.append((fi, blocks[i:i + 4]))
+    nsc = len(scale_cases())
+    for lo in range(0, nsc, 3):
+        units.append(('scale', lo, min(lo + 3, nsc)))
     return {
         'units': units,
         'rule': '%d base files (simple, 200-byte headers, 230-char content '
@@ -263,6 +303,9 @@ def plan(tier):
                 'the unpadded file at the default block size and the '
                 'reference parse; no backward seek beyond the last block; '
                 'header reads and content reads tile the file exactly once. '
+                'Scale pass: first and later headers of 1023..65537 bytes, runs '
+                'of 1..5000 blank lines, 1500 sections, x block sizes {default, '
+                '1, 7, 64, 96, 103, 199, 1024, 4096, 65536}. '
                 'Non-trivial: some header line is at least one block long.'
                 % (len(files), len(PADS), len(blocks), HAS_CHUNK_PARAM),
         'bound': 'pads 0..197 x blocks %s' % ('quick list' if tier == 'quick'
@@ -303,7 +346,56 @@ def check_case(name, data, pad, block, ref):
     return v, (padded, notes)
 
 
+def check_scale_case(label, data, block):
+    """Records of a scale case at `block` == records at the default block
+    size == strict reference reading."""
+    recs0, exc0, _ = run(data, None)
+    pref, perr = spec.parse(data)
+    v = []
+    if perr is not None:
+        return [('harness:reference-rejects-scale-case', label)]
+    if exc0 is not None:
+        return [('scale-raised:%s:%s' % (type(exc0).__name__,
+                                         site_of(exc0)),
+                 '%s at the default block size: %r' % (label, exc0))]
+    ref = [rec_core(r) for r in recs0]
+    want = [rec_core(r) for r in pref]
+    if not typed_eq(ref, want):
+        v.append(('scale-records-differ-from-reference',
+                  '%s: %d records vs %d' % (label, len(ref), len(want))))
+    if block is not None:
+        recs, exc, _ = run(data, block)
+        if exc is not None:
+            v.append(('scale-raised:%s:%s' % (type(exc).__name__,
+                                              site_of(exc)),
+                      '%s with block size %r: %r' % (label, block, exc)))
+        elif not typed_eq([rec_core(r) for r in recs], ref):
+            v.append(('scale-records-depend-on-block-size',
+                      '%s with block size %r' % (label, block)))
+    return v
+
+
 def run_unit(unit, tier):
+    if unit[0] == 'scale':
+        acc = Acc()
+        cases = scale_cases()[unit[1]:unit[2]]
+        for label, data in cases:
+            for block in SCALE_BLOCKS:
+                if block == 1 and len(data) > 20000:
+                    block = 3
+                viols = check_scale_case(label, data, block)
+                acc.evals += 1
+                acc.states += 1
+                acc.transitions += 2
+                acc.validated += 1
+                acc.nontrivial += 1
+                for key, msg in viols:
+                    acc.violation(key, msg, {'kind': 'scale',
+                                             'label': label, 'block': block})
+                acc.outcome('ok' if not viols else 'violation')
+        acc.sample({'scale_cases': [c[0] for c in cases],
+                    'blocks': [b for b in SCALE_BLOCKS]}, 1)
+        return acc
     fi, blocks = unit
     name, data = base_files()[fi]
     acc = Acc()
@@ -345,6 +437,10 @@ def run_unit(unit, tier):
 
 
 def replay(payload):
+    if payload.get('kind') == 'scale':
+        data = dict(scale_cases())[payload['label']]
+        return [{'key': k, 'msg': m} for k, m in check_scale_case(
+            payload['label'], data, payload['block'])]
     if payload.get('kind') != 'case':
         return []
     name, data = base_files()[payload['file']]
